@@ -557,9 +557,10 @@ impl<'de, R: Read<'de>> Parser<R> {
                 if self.options.leading_digit_symbols {
                     let symbol = self.parse_symbol()?;
                     let mut num_parser = Parser::from_slice_custom(symbol.as_bytes(), self.options);
-                    match num_parser.parse_num_literal(10, true) {
-                        Ok(token) => Token::Number(token),
-                        Err(_) => Token::Symbol(symbol.into()),
+                    // Only a token that is a numeric literal as a whole is a number
+                    match (num_parser.parse_num_literal(10, true), num_parser.peek()) {
+                        (Ok(token), Ok(None)) => Token::Number(token),
+                        _ => Token::Symbol(symbol.into()),
                     }
                 } else {
                     Token::Number(self.parse_num_literal(10, true)?)
